@@ -38,10 +38,10 @@ objbits: 10
 backend: sat
 timeout: %d
 quick: %s
-%sfuncs: spifconf_shell_expand
+%s%sfuncs: spifconf_shell_expand
 */
 ''' % (name, d, bound, buff, unwind if unwind else n + 2, ','.join("%s:%d" % kv for kv in us.items()), timeout, quick,
-       ('mem: %d\n' % mem) if mem else ''))
+       ('mem: %d\n' % mem) if mem else '', '' if ('U_LIMIT' in defs or 'U_NAMEBUF' in defs) else 'native: self\n'))
 
 
 Q = "A_SQ, A_DQ"
